@@ -148,10 +148,11 @@ def r111(an: Analysis, rep, V):
 
 # --------------------------------------------------------------------------- R11.2
 class FlagVisitor(paths.Visitor):
-    """Tracks one flag name N through the decoder: state = present (bool)."""
+    """Tracks one flag name N through the decoder: state = present (bool), or (present, sunk) when a sink class is given."""
 
-    def __init__(self, an, it, sobjs, name, depth=0):
+    def __init__(self, an, it, sobjs, name, depth=0, sink=None):
         self.an, self.it, self.sobjs, self.N = an, it, sobjs, name
+        self.sink = sink
         self.removals: List[Tuple[str, ast.AST]] = []
         self.tests: List[ast.AST] = []
         self.rejected = False
@@ -187,6 +188,24 @@ class FlagVisitor(paths.Visitor):
                         self.tests.append(n)
 
     def stmt(self, st, present):
+        if self.sink is not None:
+            pres, sunk = present
+            if any(isinstance(c, ast.Call) and isinstance(c.func, ast.Name) and c.func.id == self.sink for c in ast.walk(st)):
+                sunk = True
+            r = self._stmt(st, pres)
+            if isinstance(r, list):
+                return [(k, (p, sunk)) for k, p in r]
+            return (r, sunk)
+        return self._stmt(st, present)
+
+    def branch(self, test, present):
+        if self.sink is not None:
+            pres, sunk = present
+            t, f = self._branch(test, pres)
+            return (None if t is None else (t, sunk)), (None if f is None else (f, sunk))
+        return self._branch(test, present)
+
+    def _stmt(self, st, present):
         self._record_tests(st)
         # inline package calls that receive S
         forks = self._inline_calls(st, present)
@@ -238,7 +257,13 @@ class FlagVisitor(paths.Visitor):
             if f.qual in self.walked:
                 continue
             self.walked.append(f.qual)
-            sub = paths.walk(f.node.body, present, self)
+            inner = self
+            if self.sink is not None:  # callees are walked on the plain state; the sink flag belongs to the top function
+                inner = FlagVisitor(self.an, self.it, self.sobjs, self.N, self.depth + 1)
+                inner.removals, inner.tests, inner.walked = self.removals, self.tests, self.walked
+            sub = paths.walk(f.node.body, present, inner)
+            if inner is not self and inner.rejected:
+                self.rejected = True
             outs = []
             for kind, s, node in sub:
                 if kind == "raise":
@@ -250,7 +275,7 @@ class FlagVisitor(paths.Visitor):
             return outs
         return None
 
-    def branch(self, test, present):
+    def _branch(self, test, present):
         self._record_tests(test)
         neg = False
         t = test
@@ -272,6 +297,64 @@ class FlagVisitor(paths.Visitor):
 
     def assert_(self, st, present):
         return self.branch(st.test, present)
+
+
+def r112_sink(an: Analysis, rep, V, top):
+    """Function-kind flags live in Function.type: on a path that builds no Function, removing one of them loses it."""
+    it, ret = an.interp("from_code", V)
+    tg = an.tg
+    fnc = an.prog.cls("code_data::Function")
+    t = tg.field_type(fnc.field("type"))
+    lits = set()
+    for x in (t[1] if t[0] == "union" else [t]):
+        if x[0] == "literal":
+            lits |= {v for v in x[1] if isinstance(v, str)}
+    sobjs = set()
+    for (o, fld), vals in it.heap.items():
+        if o[0] == "obj" and it.obj_kind(o) == "set" and any(a[0] == "src" and a[2][:1] == (("a", "co_flags"),) for a in it.origins(frozenset(vals))):
+            sobjs.add(o)
+    for N in sorted(lits):
+        vis = FlagVisitor(an, it, frozenset(sobjs), N, sink=fnc.name)
+        outs = paths.walk(top.node.body, (True, False), vis)
+        lost = [node for kind, st, node in outs if kind in ("return", "fall") and st[0] is False and st[1] is False]
+        rep.add("R11.2", f"{top.qual}::flag {N} is removed only where it is stored", not lost, loc(top.module, lost[0]) if lost else loc(top.module, top.node),
+                f"on a path that never builds a {fnc.name} value the flag {N} is removed from the flag set and the decoder returns: the flag of non-function code "
+                f"(e.g. a module compiled with top-level await, or a hand-set bit) is dropped silently, to_code() yields different co_flags" if lost
+                else f"every path on which {N} is removed builds the {fnc.name} value that stores it", config=vname(V))
+
+
+def r114_dominance(an: Analysis, rep, V, top):
+    """Header fields the data does not store (they are re-derived by the encoder) must be checked on every returning path."""
+    import reference.contracts as C
+    it, ret = an.interp("from_code", V)
+    stored = set()
+    for a in ret:
+        for fld, vals in it.obj_fields(a).items():
+            for o in it.origins(vals, stop_kinds=("call:len",)):
+                if o[0] == "src" and o[1] == "code" and o[2]:
+                    stored.add(o[2][0][1])
+    seen = header_reads(an, V)
+    for s in C.CODE_SLOTS[V]:
+        attr = "co_" + s
+        if attr not in seen or attr in stored:
+            continue
+
+        class V_(paths.Visitor):
+            def branch(self, test, state):
+                if any(isinstance(x, ast.Attribute) and x.attr == attr for x in ast.walk(test)):
+                    return state, True
+                return state, state
+
+            def assert_(self, st, state):
+                if any(isinstance(x, ast.Attribute) and x.attr == attr for x in ast.walk(st.test)):
+                    return True, state
+                return state, state
+        outs = paths.walk(top.node.body, False, V_())
+        unchecked = [node for kind, st, node in outs if kind in ("return", "fall") and not st]
+        rep.add("R11.4", f"{top.qual}::{attr} is checked on every returning path", not unchecked, loc(top.module, unchecked[0]) if unchecked else loc(top.module, top.node),
+                f"{attr} is not stored in the data (the encoder re-derives it) and the test that rejects code objects where the derivation would differ is skipped on "
+                f"{len(unchecked)} returning path(s): such a code object is decoded without error and re-encoded with a different {attr}" if unchecked
+                else f"{attr} is only checked, and the check dominates every return", config=vname(V))
 
 
 def r112(an: Analysis, rep, V):
@@ -468,11 +551,13 @@ def header_reads(an: Analysis, V) -> Set[str]:
     return seen
 
 
-def r114(an: Analysis, rep, V, rule="R11.4"):
+def r114(an: Analysis, rep, V, rule="R11.4", only=None):
     import reference.contracts as C
     seen = header_reads(an, V)
     api = an.prog.function("code_data::CodeData.from_code")
     for s in C.CODE_SLOTS[V]:
+        if only is not None and s not in only:
+            continue
         attr = "co_" + {"code": "code", "consts": "consts"}.get(s, s)
         ok = attr in seen
         rep.add(rule, f"decoder::reads {attr}", ok, loc(api.module, api.node),
@@ -567,6 +652,8 @@ def run(an: Analysis, rep):
         res = rep.run(r112, an, rep, V)
         if res is not None:
             disp, top = res
+            rep.run(r112_sink, an, rep, V, top)
+            rep.run(r114_dominance, an, rep, V, top)
             rep.run(r113, an, rep, V, disp)
             rep.extra.setdefault("flag_dispositions", {})[vname(V)] = disp
         rep.run(r114, an, rep, V)
